@@ -489,6 +489,9 @@ class Interp:
         kwv = env.pop("__kwargs__", None) or {}
         for i, p in enumerate(params):
             if i < len(args):
+                if p in kwv:
+                    # f() got multiple values for argument p
+                    raise Raised(fn, "TypeError")
                 env[p] = args[i]
             elif p in kwv:
                 env[p] = kwv.pop(p)
